@@ -33,6 +33,7 @@
 package ext_c03
 
 import (
+	"sync/atomic"
 	"bytes"
 	"context"
 	"encoding/base64"
@@ -75,6 +76,8 @@ type callSpec struct {
 	Outcome outcomeSpec       `json:"outcome"`
 	Headers map[string]string `json:"headers"`
 	Tamper  *tamperSpec       `json:"tamper"`
+	// DropReply (http): the server processes the request and the connection is closed before any response is sent
+	DropReply bool `json:"drop_reply"`
 }
 
 type sessionReq struct {
@@ -440,10 +443,18 @@ func (emptyStruct) Read(ctx context.Context, p thrift.TProtocol) error {
 // ---- http
 
 type httpLink struct {
-	ts  *httptest.Server
-	tr  frugal.FTransport
-	rec *recorder
+	ts   *httptest.Server
+	tr   frugal.FTransport
+	rec  *recorder
+	drop int32 // 1: the next request is processed, then the connection is closed without a response (once)
 }
+
+// discardWriter keeps the handler's output away from the connection
+type discardWriter struct{ h http.Header }
+
+func (d *discardWriter) Header() http.Header         { return d.h }
+func (d *discardWriter) Write(p []byte) (int, error) { return len(p), nil }
+func (d *discardWriter) WriteHeader(int)             {}
 
 type bodyRecorder struct {
 	http.ResponseWriter
@@ -469,6 +480,16 @@ func newHTTPLink(proc frugal.FProcessor, pf *frugal.FProtocolFactory, rec *recor
 			rec.setRequest(dec)
 		}
 		r.Body = io.NopCloser(bytes.NewReader(body))
+		if atomic.CompareAndSwapInt32(&l.drop, 1, 0) {
+			// fault: the request is processed, the reply never leaves (connection closed instead)
+			h(&discardWriter{h: http.Header{}}, r)
+			if hj, ok := w.(http.Hijacker); ok {
+				if conn, _, err := hj.Hijack(); err == nil {
+					conn.Close()
+				}
+			}
+			return
+		}
 		br := &bodyRecorder{ResponseWriter: w, status: 200}
 		h(br, r)
 		if br.status == 200 {
@@ -979,6 +1000,9 @@ func oneCall(reg *labdriver.Registry, rec *recorder, lk link, std *frugal.FStand
 	rec.reset(func(service, method string) (interface{}, error) { return retv, rete })
 	if mem != nil {
 		mem.tamper = c.Tamper
+	}
+	if hl, ok := lk.(*httpLink); ok && c.DropReply {
+		atomic.StoreInt32(&hl.drop, 1)
 	}
 	var rets []reflect.Value
 	t0 := time.Now()
